@@ -637,7 +637,13 @@ pub trait BrokerOperations<O: BrokerOrder, Q: BrokerQuote>:
                     //Cannot be called without quote existing so unwrap
                     let quote = self.get_quote(&ticker).unwrap();
                     let price = quote.get_bid();
-                    let shares_req = (total_sold / price).ceil();
+                    let mut shares_req = (total_sold / price).ceil();
+                    //Rounding up can overshoot a fractional position, the whole position is enough
+                    if let Some(qty) = self.get_position_qty(&ticker) {
+                        if qty < shares_req {
+                            shares_req = qty;
+                        }
+                    }
                     let order = O::market_sell(ticker, shares_req);
                     info!("BROKER: Withdrawing {:?} with liquidation, queueing sale of {:?} shares of {:?}", cash, order.get_shares(), order.get_symbol());
                     sell_orders.push(order);
